@@ -35,6 +35,25 @@ P = {
              "to every signature bit / payload field / segment variant and the real applier must refuse (or degrade the "
              "recover) exactly as specified.",
         ref="DESIGN.md 3 C02"),
+    "C03": dict(
+        level="model_checking", engine="selfcert",
+        technique="TLA+ symbolic hash terms (Hash.tla, SelfCert.tla) checked by TLC; every (request, change) case replayed "
+                  "into Parser.Parse with the suffix term evaluated by reference SHA-2 / multihash / JCS",
+        text="With an ideal hash TLC checks that re-serializations keep DID and verdict and that every single-member "
+             "modification changes the DID or is rejected; every enumerated case is built as real bytes (all patch "
+             "actions, optional members, both algorithms, four configured lists, three spellings) and the real "
+             "parser's verdict, suffix and id are compared with the specification's expectation and the reference "
+             "evaluation of the suffix term.",
+        ref="DESIGN.md 3 C03"),
+    "C07": dict(
+        level="model_checking", engine="parserrules",
+        technique="TLA+ decision table ParseAccept(request, relative configuration) (ParserRules.tla over Ops.tla); TLC "
+                  "enumerates labelled deviations, one Parser.Parse test per state; TLC trace validation of random pairs",
+        text="Every rule of the statement is a conjunct of ParseAccept; every single (thorough: pair of) deviation of "
+             "request or configuration, incl. off-by-one on each size limit relative to the concrete request, is "
+             "enumerated by TLC and executed against the real parser with real signed requests; accepted requests "
+             "must carry type, suffix, id, bytes and anchor origin. Random multi-deviation pairs are validated by TLC.",
+        ref="DESIGN.md 3 C07"),
     "C09": dict(
         level="model_checking", engine="applier",
         technique="TLA+ window operators (InWindow / EffUntil) in Applier.tla; TLC enumerates the full (from, until, t) "
